@@ -937,6 +937,18 @@ func (it *Interp) appendSlice(s SliceV, add Value) Value {
 	if !ok {
 		it.unsup("append to slice with symbolic length")
 	}
+	// spare capacity: the new elements are stored into the SAME backing array (two slices appended to from one
+	// parent share those cells - Go's aliasing, which a data race or a stale value can hide behind)
+	if s.arr != nil && len(extra) > 0 && int(n)+len(extra) <= s.cp {
+		if av, isArr := s.arr.v.(*ArrayV); isArr && s.off+int(n)+len(extra) <= len(av.E) {
+			for i, e := range extra {
+				idx := s.off + int(n) + i
+				it.raceAccess(Ptr{o: s.arr, path: []int{idx}}, true)
+				av.E[idx] = e
+			}
+			return SliceV{arr: s.arr, off: s.off, ln: n + int64(len(extra)), cp: s.cp}
+		}
+	}
 	var elems []Value
 	for i := 0; i < int(n); i++ {
 		elems = append(elems, copyVal(s.arr.v.(*ArrayV).E[s.off+i]))
